@@ -7,7 +7,11 @@ import checks_txn, checks_cache, checks_pure, checks_sess, checks_gates, checks_
 def replay_txn(prop, path):
     case = json.load(open(path))["case"]
     vh = build_vh()
-    got, trace = txnfam.confirm(vh, case)
+    if "api_case" in case:
+        import checks_apiops
+        got, trace = checks_apiops.confirm_fn(vh)(case)
+    else:
+        got, trace = txnfam.confirm(vh, case)
     if got:
         print("VIOLATION property=%s replay=%s" % (prop, path))
         print("  " + json.dumps(got[0])[:600])
@@ -73,7 +77,9 @@ def replay_c08(prop, path):
     r = json.load(open(path))
     vh = build_vh()
     case = r["case"]
-    fn = checks_api.cond_api_confirm(vh) if case["key"].get("via", "").startswith("api") else checks_pure.cond_confirm(vh)
+    import checks_apiops
+    fn = (checks_apiops.confirm_fn(vh) if "api_case" in case else
+          checks_api.cond_api_confirm(vh) if case["key"].get("via", "").startswith("api") else checks_pure.cond_confirm(vh))
     got, _ = fn(case)
     if got:
         print("VIOLATION property=%s replay=%s" % (prop, path))
